@@ -337,6 +337,7 @@ func IsBoolNode(n Node) bool {
 //@ props C04
 //@ propagates errors
 //@ loop 1 invariant [C04] no-pending: pendingErr() == nil
+//@ loop 1 invariant [C04] each-subscript-validated: ncalls(validateNode) == rangeindex + 1
 //@ assumes depth-small: depth >= 0 && depth < 1073741824
 //@ assumes tree-unary: is[*UnaryNode](node) ==> as[*UnaryNode](node).operand == nil || as[*UnaryNode](node).operand != as[*UnaryNode](node).next
 //@ assumes tree-regex: is[*RegexNode](node) ==> as[*RegexNode](node).operand == nil || as[*RegexNode](node).operand != as[*RegexNode](node).next
@@ -345,6 +346,8 @@ func IsBoolNode(n Node) bool {
 //@ ensures [C04] current-outside-filter: is[*ConstNode](node) && as[*ConstNode](node).kind == ConstCurrent && depth <= 0 ==> r0 != nil
 //@ ensures [C04] last-outside-subscript: is[*ConstNode](node) && as[*ConstNode](node).kind == ConstLast && !inSubscript ==> r0 != nil
 //@ ensures [C04] nil-ok: node == nil ==> r0 == nil
+//@ ensures [C04] every-operand-validated: r0 == nil && node != nil ==> ncalls(validateNode) == ite(is[*BinaryNode](node), 2, ite(is[*UnaryNode](node) || is[*RegexNode](node), 1, ite(is[*ArrayIndexNode](node), len(as[*ArrayIndexNode](node).subscripts), 0))) + ite(node.Next() != nil, 1, 0)
+//@ ensures [C04] rest-of-the-chain-validated: r0 == nil && node != nil && node.Next() != nil ==> ncalls(validateNode) >= 1 && callarg[Node](validateNode, "node") == node.Next() && callarg[int](validateNode, "depth") == depth && callarg[bool](validateNode, "inSubscript") == inSubscript
 //@ atcall validateNode assert [C04] filter-operand-depth: is[*UnaryNode](node) && arg_node != nil && arg_node == as[*UnaryNode](node).operand ==> arg_inSubscript == inSubscript && arg_depth == depth + ite(as[*UnaryNode](node).op == UnaryFilter, 1, 0)
 //@ atcall validateNode assert [C04] binary-operands: is[*BinaryNode](node) && arg_node != nil && (arg_node == as[*BinaryNode](node).left || arg_node == as[*BinaryNode](node).right) ==> arg_depth == depth && arg_inSubscript == inSubscript
 //@ atcall validateNode assert [C04] regex-operand: is[*RegexNode](node) && arg_node != nil && arg_node == as[*RegexNode](node).operand ==> arg_depth == depth && arg_inSubscript == inSubscript
